@@ -349,7 +349,7 @@ func typesFor(where string, depth int, cfg Cfg) []string {
 	case "context":
 		ts = append(ts, scalarTypes...)
 		ts = append(ts, sliceTypes...)
-		ts = append(ts, "stringer", "timestamp", "err", "any", "type", "stack", "ctx")
+		ts = append(ts, "stringer", "timestamp", "err", "any", "type", "stack", "ctx", "reset")
 		if !cfg.NoCaller {
 			ts = append(ts, "caller")
 		}
@@ -641,7 +641,7 @@ func (g *G) Settings() Settings {
 	}
 	s.ErrMarshal = rapid.SampledFrom([]string{"", "", "", "string", "obj", "othererr", "nil", "struct"}).Draw(t, "set.em")
 	s.StackMarshal = rapid.SampledFrom([]string{"", "", "nil", "string", "error", "obj", "frames"}).Draw(t, "set.sm")
-	s.IfaceMarshal = rapid.SampledFrom([]string{"", "", "stdjson"}).Draw(t, "set.im")
+	s.IfaceMarshal = rapid.SampledFrom([]string{"", "", "stdjson", "wrap"}).Draw(t, "set.im")
 	if rapid.Bool().Draw(t, "set.clk") {
 		s.ClockSec = rapid.Int64Range(-4294967296, 4294967296).Draw(t, "set.clks")
 		s.ClockNsec = rapid.SampledFrom([]int64{0, 1000, 999999000, 123456000}).Draw(t, "set.clkn")
@@ -705,6 +705,11 @@ func (g *G) Steps(label string, maxSteps int) []Step {
 		switch k {
 		case "with", "update":
 			st.Ops = g.Ops("context", g.cfg.MaxDepth-1, label+".cops")
+			if g.cfg.Tree && rapid.IntRange(0, 5).Draw(t, label+".reset") == 0 {
+				// Context.Reset is a rare entry point: make sure it occurs, also at the head of an
+				// UpdateContext on a logger that already has Level/Sample/Hook children
+				st.Ops = append([]Op{{V: Val{T: "reset"}}}, st.Ops...)
+			}
 		case "hook":
 			nh := rapid.IntRange(1, 3).Draw(t, label+".nh")
 			for j := 0; j < nh; j++ {
@@ -720,9 +725,9 @@ func (g *G) Steps(label string, maxSteps int) []Step {
 		if k == "update" {
 			alias[i] = parent
 		} else {
-			if parent >= 0 {
-				canUpdate[resolve(parent)] = false
-			}
+			// a child made by With() or Output() copies the context; Level/Sample/Hook children
+			// share the parent's backing array but never append to it (they are not updatable), so the
+			// parent may still be updated afterwards
 			canUpdate[i] = k == "with"
 		}
 		steps = append(steps, st)
@@ -743,9 +748,12 @@ func (g *G) Event(label string) EventSpec {
 		ev.Level = rapid.SampledFrom([]int{-1, 0, 1, 2, 3, 4, 5, 6, 8, 42, -7, 127}).Draw(t, label+".wl")
 	}
 	ev.Ops = g.Ops("event", g.cfg.MaxDepth, label+".ops")
-	ev.Fin = rapid.SampledFrom([]string{"msg", "msg", "msgf", "msgf2", "msgfunc", "send"}).Draw(t, label+".fin")
+	ev.Fin = rapid.SampledFrom([]string{"msg", "msg", "msgf", "msgf2", "msgf0", "msgfunc", "send"}).Draw(t, label+".fin")
 	if ev.Fin != "send" && rapid.IntRange(0, 4).Draw(t, label+".hasmsg") != 0 {
 		ev.Msg = g.Bytes(label + ".msg")
+		if rapid.IntRange(0, 3).Draw(t, label+".pct") == 0 {
+			ev.Msg = append(ev.Msg, rapid.SampledFrom([]string{"%", "100%%", "v=%d", "%s", "%v%%"}).Draw(t, label+".pctv")...)
+		}
 	}
 	return ev
 }
